@@ -9,6 +9,16 @@ sys.path.insert(0, os.path.join(ROOT, "driver"))
 import props  # noqa: E402
 
 ALL = [f"C{i:02d}" for i in range(1, 19)]
+
+
+def _bins(spec):
+    out = []
+    for r in spec["runs"]:
+        b = r.get("bin") or ("mon" if r.get("kind") == "custom" else None)
+        if b and b not in out:
+            out.append(b)
+    return out
+
 checks = []
 for pid in ALL:
     if pid not in props.PROPS:
@@ -20,7 +30,7 @@ for pid in ALL:
         "thorough_cmd": f"./check {pid} --tier thorough",
         "evidence_file": f"/verif/evidence/{pid}.json",
         "replay_cmd_template": f"./check {pid} --replay {{path}}",
-        "engine": s.get("engine", "mon"),
+        "engine": s.get("engine") or (_bins(s)[0] if _bins(s) else "mon"),
         "level_claimed": {
             "category": "exploration",
             "text": s["level_text"],
@@ -31,6 +41,31 @@ for pid in ALL:
     })
 na = [{"property_id": pid, "reason": props.NOT_YET.get(pid, "monitor not built yet in this round; see DESIGN.md section 2 for the plan")}
       for pid in ALL if pid not in props.PROPS]
+def _bins(spec):
+    out = []
+    for r in spec["runs"]:
+        b = r.get("bin") or ("mon" if r.get("kind") == "custom" else None)
+        if b and b not in out:
+            out.append(b)
+    return out
+
+
+_KINDS = {
+    "mon": "Rust monitor binary (sub-commands c01 c02emit c04 c05 c06 c07 c08 c09 c10 c11 c12 c13 c15) linked against /repo's crates with hooks on; built with default features and with grammar-extras; run as single-threaded shard processes by /verif/check",
+    "mon_state": "Rust monitor binary for C03; depends on pest alone so that it can be built with and without memchr",
+    "mon_fixed": "Rust monitor binary for C16/C18 over derive-compiled parsers (build.rs generates a grammar naming every Unicode property)",
+    "mon_meta": "Rust monitor binary for C14: checked-in meta parser vs VM over grammar.pest vs parser freshly derived from grammar.pest",
+    "mon_dbg": "Rust monitor binary for C17 (controller histories against pest_debugger with seeded delays; also built under ThreadSanitizer)",
+}
+ENGINES = []
+for b, kind in _KINDS.items():
+    serves = [p for p in ALL if p in props.PROPS and b in _bins(props.PROPS[p])]
+    ENGINES.append({"name": b, "path": f"/verif/harness/{b}", "serves_properties": serves, "kind_free_text": kind})
+ENGINES.append({"name": "vmon", "path": "/verif/harness/vmon", "serves_properties": ["C01", "C02", "C04", "C05", "C06", "C07", "C08", "C09", "C12", "C14", "C15", "C17"],
+                "kind_free_text": "shared library: PRNG, grammar generator, pest-syntax printer, input generators, reference PEG interpreter, error-report checker, near-miss text generator, shard reports"})
+ENGINES.append({"name": "generated derive batches", "path": "/verif/target/gen (generated at check time by `mon c02emit`, driver/c02stage.py)", "serves_properties": ["C02", "C08"],
+                "kind_free_text": "16 crates of #[derive(Parser)] #[grammar_inline] modules compiled against the working tree's pest_derive"})
+
 m = {
     "version": 1,
     "setup_cmd": "./setup.sh",
@@ -41,12 +76,7 @@ m = {
         "source_commits": props.HOOK_COMMITS,
         "add_only": True,
     },
-    "engines": [
-        {"name": "mon", "path": "/verif/harness/mon", "serves_properties": [p for p in ALL if p in props.PROPS and props.PROPS[p].get("engine", "mon") == "mon"],
-         "kind_free_text": "Rust monitor binary (one sub-command per property) linked against /repo's crates with hooks on; run as single-threaded shard processes by /verif/check"},
-        {"name": "vmon", "path": "/verif/harness/vmon", "serves_properties": ["C01", "C05", "C06", "C07", "C08", "C12", "C15"],
-         "kind_free_text": "shared library: PRNG, grammar generator, pest-syntax printer, input generators, reference PEG interpreter, shard reports"},
-    ],
+    "engines": ENGINES,
     "checks": checks,
     "notes": "Runtime monitoring: every check executes the real pest code under generated workloads with an oracle observing it. See DESIGN.md. Exit codes: 0 held on what was observed, 1 violation (VIOLATION line), 2 inconclusive, 3 harness/build error.",
     "not_applicable": na,
